@@ -20,7 +20,8 @@ type Stats struct {
 	Situations  map[string]map[string]bool // "Cxx" -> distinct abstract situations
 	Evaluations map[string]int             // "Cxx" -> steps/states judged
 	Violations  []Violation
-	VioHist     map[string]*History // signature -> first witness history
+	VioHist     map[string]*History // signature -> shortest witness history
+	VioBy       map[string]Violation // signature -> the violation as reported in that witness
 	Histories   int
 	Steps       int
 	OpKinds     map[string]int
@@ -29,7 +30,7 @@ type Stats struct {
 
 func NewStats() *Stats {
 	return &Stats{Hits: map[string]int{}, Situations: map[string]map[string]bool{}, Evaluations: map[string]int{},
-		VioHist: map[string]*History{}, OpKinds: map[string]int{}}
+		VioHist: map[string]*History{}, VioBy: map[string]Violation{}, OpKinds: map[string]int{}}
 }
 
 func (s *Stats) Merge(o *Stats) {
@@ -55,6 +56,7 @@ func (s *Stats) Merge(o *Stats) {
 		// keep the shortest witness history per signature
 		if cur, ok := s.VioHist[k]; !ok || len(v.Steps) < len(cur.Steps) {
 			s.VioHist[k] = v
+			s.VioBy[k] = o.VioBy[k]
 		}
 	}
 	s.Histories += o.Histories
@@ -223,6 +225,7 @@ func (m *Mon) fail(sc *StepCtx, prop, rule, sigDetail, format string, a ...inter
 		h := *m.run.hist
 		h.Steps = append([]Step(nil), m.run.hist.Steps...)
 		m.stats.VioHist[sig] = &h
+		m.stats.VioBy[sig] = v
 	}
 }
 
